@@ -326,9 +326,9 @@ Proof.
       apply code_at_app in Hc. destruct Hc as [Hc1 Hc2].
       assert (Hin : in_loop_ok false None) by (intros H; discriminate).
       assert (Hir : in_ret_ok false (m_frames s)) by (intros H; discriminate).
-      assert (Hd : depth_ok (m_frames s) (zlength (m_stack s))) by (rewrite Hfr; exact I).
+      assert (Hd : in_depth_ok false s) by (intros H; discriminate).
       destruct (proj1 (simpleB_simulation rt mt Hbodies) false false st (top_nondef rt mt st E Hst) None im ss s sg sa fuel Hload Hin Hir Hd Hsim Hc1 Est)
-        as [[Hsg (n1 & s1 & e1 & E1 & Hs1 & Hpc1 & Hst1 & Ht1)]|[[_ (a & Ha & _)]|[v [_ (ret & F & Hct & _)]]]].
+        as [[Hsg (n1 & s1 & e1 & E1 & Hs1 & Hpc1 & Hst1 & Ht1)]|[[_ (a & Ha & _)]|[_ [v [_ (ret & F & Hct & _)]]]]].
       * subst sg.
         assert (Hfr1 : m_frames s1 = []).
         { injection Hst1 as _ H2. unfold fr in H2. rewrite Hfr in H2. apply erase_nil_inv. exact H2. }
@@ -457,6 +457,7 @@ Proof.
   - intros inl inr n a _ _ IHa fuel acc. destruct fuel as [|fuel]; [reflexivity|]. exact (IHa fuel acc).
   - intros inl inr a _ IHa fuel acc. destruct fuel as [|fuel]; [reflexivity|]. exact (IHa fuel acc).
   - intros inl inr l v pre body _ _ IHa fuel acc. destruct fuel as [|fuel]; [reflexivity|]. exact (IHa fuel acc).
+  - intros inl inr l x ov pre body _ _ IHa fuel acc. destruct fuel as [|fuel]; [reflexivity|]. exact (IHa fuel acc).
   - intros inl inr fuel acc. reflexivity.
   - intros inl inr st r _ IHst _ IHr fuel acc. cbn [fold_left]. rewrite IHr. exact (IHst fuel acc).
 Qed.
